@@ -246,6 +246,9 @@ func (s *shared) runPath(fn *ssa.Function, item workItem, solver *Solver, cfg *C
 					// Go runtime errors raised while the engine manipulates target memory model the
 					// same runtime error in the target
 					outcome, detail = "panic", msg
+					if os.Getenv("GOSYM_STACK") != "" {
+						fmt.Fprintf(os.Stderr, "host runtime error taken as target panic: %v\n%s\n", r, debug.Stack())
+					}
 				} else {
 					outcome, detail = "unsupported", "engine panic: "+msg
 					if cfg.Verbose {
